@@ -240,15 +240,26 @@ theorem replaceSig_mem (id t : Str) (x : Char) (hx : x ∈ replaceSig id t) :
       · left; exact List.mem_cons_of_mem _ h
       · right; exact h
 
+theorem mem_linePart (t : Str) (x : Char) (h : x ∈ linePart t) : x ∈ t :=
+  (List.takeWhile_sublist _).subset h
+
+theorem mem_restPart (t : Str) (x : Char) (h : x ∈ restPart t) : x ∈ t :=
+  (List.dropWhile_sublist _).subset h
+
+theorem linePart_append_restPart (t : Str) : linePart t ++ restPart t = t :=
+  List.takeWhile_append_dropWhile
+
 theorem rewriteTok_no_space (id t : Str) (hid : ' ' ∉ id) (ht : ' ' ∉ t) : ' ' ∉ rewriteTok id t := by
   unfold rewriteTok
   split
   · intro h
-    rcases replaceSig_mem id t ' ' h with h | h | h | h
-    · exact ht h
-    · exact hid h
-    · exact absurd h (by decide)
-    · exact absurd h (by decide)
+    rcases List.mem_append.mp h with h | h
+    · rcases replaceSig_mem id _ ' ' h with h | h | h | h
+      · exact ht (mem_linePart t _ h)
+      · exact hid h
+      · exact absurd h (by decide)
+      · exact absurd h (by decide)
+    · exact ht (mem_restPart t _ h)
   · exact ht
 
 /-- The relayed text has the same space-delimited token structure: token `i` of the output is
@@ -325,10 +336,42 @@ theorem takeWhile_digits_append (ds r : Str) (h1 : ∀ c ∈ ds, isDigit c = tru
     simp only [List.cons_append, List.takeWhile_cons, h1 d (by simp), if_true]
     rw [ih (fun c hc => h1 c (List.mem_cons_of_mem _ hc))]
 
+theorem notNL_of_isLowerHex (c : Char) (h : isLowerHex c = true) : notNL c = true := by
+  have : c ≠ '\n' := by intro e; subst e; revert h; decide
+  simp [notNL, this]
+
+theorem notNL_of_isDigit (c : Char) (h : isDigit c = true) : notNL c = true := by
+  have : c ≠ '\n' := by intro e; subst e; revert h; decide
+  simp [notNL, this]
+
+theorem takeWhile_append_of_all {p : Char → Bool} (a b : Str) (h : ∀ c ∈ a, p c = true) :
+    (a ++ b).takeWhile p = a ++ b.takeWhile p := by
+  induction a with
+  | nil => rfl
+  | cons c a ih =>
+    simp only [List.cons_append, List.takeWhile_cons, h c (by simp), if_true]
+    rw [ih (fun x hx => h x (List.mem_cons_of_mem _ hx))]
+
+theorem dropWhile_append_of_all {p : Char → Bool} (a b : Str) (h : ∀ c ∈ a, p c = true) :
+    (a ++ b).dropWhile p = b.dropWhile p := by
+  induction a with
+  | nil => rfl
+  | cons c a ih =>
+    simp only [List.cons_append, List.dropWhile_cons, h c (by simp), if_true]
+    exact ih (fun x hx => h x (List.mem_cons_of_mem _ hx))
+
+theorem dropWhile_dropWhile (p : Char → Bool) (l : Str) : (l.dropWhile p).dropWhile p = l.dropWhile p := by
+  induction l with
+  | nil => rfl
+  | cons c l ih =>
+    by_cases h : p c = true
+    · simp only [List.dropWhile_cons, h, if_true]; exact ih
+    · simp only [List.dropWhile_cons, h]; simp [h]
+
 /-- cutting a sized block token down to hash+size gives the same result before and after the
-signature rewrite -/
-theorem stripTok_replaceSig (id t : Str) (hs : sizedLen t ≠ none) :
-    stripTok (replaceSig id t) = stripTok t := by
+signature rewrite (which touches only the part of the token before its first newline) -/
+theorem stripTok_rewriteTok (id t : Str) (hs : sizedLen t ≠ none) :
+    stripTok (rewriteTok id t) = stripTok t := by
   have hl : locPrefix t = true := by
     unfold sizedLen at hs
     split at hs
@@ -341,8 +384,9 @@ theorem stripTok_replaceSig (id t : Str) (hs : sizedLen t ≠ none) :
   have hnp : '+' ∉ hx := by
     intro hm
     exact isLowerHex_ne_plus '+' (List.all_eq_true.mp h2 _ hm) rfl
-  rw [replaceSig_append_noPlus _ _ _ hnp, stripTok_of_shape hx rest h1 h2 hd]
-  -- split rest into digits and remainder
+  have hxnl : ∀ c ∈ hx, notNL c = true := fun c hc => notNL_of_isLowerHex c (List.all_eq_true.mp h2 c hc)
+  simp only [rewriteTok, hl, if_true]
+  rw [stripTok_of_shape hx rest h1 h2 hd]
   have hsplit : rest = rest.takeWhile isDigit ++ rest.dropWhile isDigit :=
     (List.takeWhile_append_dropWhile).symm
   generalize hds : rest.takeWhile isDigit = ds at hd hsplit
@@ -361,19 +405,54 @@ theorem stripTok_replaceSig (id t : Str) (hs : sizedLen t ≠ none) :
     have hd0 : isDigit d0 = true := hdig d0 (by simp)
     have hnp2 : '+' ∉ (d0 :: ds') := by
       intro hm; exact isDigit_ne_plus '+' (hdig _ hm) rfl
-    have hrs : replaceSig id ('+' :: rest) = '+' :: (d0 :: ds') ++ replaceSig id r := by
-      rw [hsplit, List.cons_append, replaceSig_plus_ne _ _ _ (isDigit_ne_A d0 hd0)]
+    have hdsnl : ∀ c ∈ (d0 :: ds'), notNL c = true := fun c hc => notNL_of_isDigit c (hdig c hc)
+    -- shape of the line part and of the rest part
+    have hpre : ∀ c ∈ hx ++ '+' :: (d0 :: ds'), notNL c = true := by
+      intro c hc
+      rcases List.mem_append.mp hc with h | h
+      · exact hxnl c h
+      · rcases List.mem_cons.mp h with rfl | h
+        · decide
+        · exact hdsnl c h
+    have hwhole : hx ++ '+' :: rest = (hx ++ '+' :: (d0 :: ds')) ++ r := by
+      rw [hsplit]; simp
+    have hline : linePart (hx ++ '+' :: rest) = hx ++ '+' :: ((d0 :: ds') ++ linePart r) := by
+      unfold linePart
+      rw [hwhole, takeWhile_append_of_all _ _ hpre]; simp
+    have hrest : restPart (hx ++ '+' :: rest) = restPart r := by
+      unfold restPart
+      rw [hwhole, dropWhile_append_of_all _ _ hpre]
+    rw [hline, hrest, replaceSig_append_noPlus _ _ _ hnp]
+    have hrs : replaceSig id ('+' :: ((d0 :: ds') ++ linePart r)) = '+' :: ((d0 :: ds') ++ replaceSig id (linePart r)) := by
+      rw [List.cons_append, replaceSig_plus_ne _ _ _ (isDigit_ne_A d0 hd0)]
       rw [← List.cons_append, replaceSig_append_noPlus _ _ _ hnp2]
-      rfl
     rw [hrs]
-    have := stripTok_of_shape hx ((d0 :: ds') ++ replaceSig id r) h1 h2
-    have htw : ((d0 :: ds') ++ replaceSig id r).takeWhile isDigit = d0 :: ds' := by
+    have hX : hx ++ '+' :: ((d0 :: ds') ++ replaceSig id (linePart r)) ++ restPart r
+        = hx ++ '+' :: ((d0 :: ds') ++ (replaceSig id (linePart r) ++ restPart r)) := by simp
+    rw [hX]
+    have htw : ((d0 :: ds') ++ (replaceSig id (linePart r) ++ restPart r)).takeWhile isDigit = d0 :: ds' := by
       apply takeWhile_digits_append _ _ hdig
       intro c hc
-      rw [replaceSig_head] at hc
+      -- the head of (replaceSig (linePart r) ++ restPart r) is the head of r
+      have hhead : (replaceSig id (linePart r) ++ restPart r).head? = r.head? := by
+        cases hr' : r with
+        | nil => simp [linePart, restPart, replaceSig]
+        | cons c0 r0 =>
+          by_cases hn : notNL c0 = true
+          · have : linePart (c0 :: r0) = c0 :: linePart r0 := by simp [linePart, hn]
+            rw [this]
+            have hh := replaceSig_head id (c0 :: linePart r0)
+            cases hrs' : replaceSig id (c0 :: linePart r0) with
+            | nil => rw [hrs'] at hh; simp at hh
+            | cons a as => rw [hrs'] at hh; simp at hh; simp [hh]
+          · have h1' : linePart (c0 :: r0) = [] := by simp [linePart, hn]
+            have h2' : restPart (c0 :: r0) = c0 :: r0 := by simp [restPart, hn]
+            rw [h1', h2']; simp [replaceSig]
+      rw [hhead] at hc
       exact hrh c hc
+    have := stripTok_of_shape hx ((d0 :: ds') ++ (replaceSig id (linePart r) ++ restPart r)) h1 h2
     rw [htw] at this
-    simpa using this (by simp)
+    exact this (by simp)
 
 /-- every block token (32 hex digits and `+`) carries a size -/
 def SizedLocs (mt : Str) : Prop :=
@@ -394,11 +473,9 @@ theorem pdhText_rewrite (mt id : Str) (hid : ' ' ∉ id) (h : SizedLocs mt) :
   unfold pdhText
   rw [rewriteManifest_tokens mt id hid, mapTail_mapTail_congr]
   intro t ht
-  unfold rewriteTok
-  split
-  · rename_i hl
-    exact stripTok_replaceSig id t (h t ht hl)
-  · rfl
+  by_cases hl : locPrefix t = true
+  · exact stripTok_rewriteTok id t (h t ht hl)
+  · simp [rewriteTok, hl]
 
 theorem pdh_rewrite (md5 : Str → Str) (mt id : Str) (hid : ' ' ∉ id) (h : SizedLocs mt) :
     pdh md5 (rewriteManifest mt id) = pdh md5 mt := by
